@@ -46,11 +46,21 @@ def main():
               ('RotatedPlanar2DCode', 'BeliefPropagationOSDDecoder', ['XZZX', 'XY']), ('Toric2DCode', 'UnionFindDecoder', []),
               ('Color666PlanarCode', 'BeliefPropagationOSDDecoder', [])]
     codes3 = [('Toric3DCode', 'SweepMatchDecoder', ['XZZX']), ('Planar3DCode', 'BeliefPropagationOSDDecoder', ['XZZX']),
-              ('XCubeCode', 'BeliefPropagationOSDDecoder', ['XZZX']), ('RotatedPlanar3DCode', 'RotatedSweepMatchDecoder', ['XZZX'])]
+              ('XCubeCode', 'BeliefPropagationOSDDecoder', ['XZZX']), ('RotatedPlanar3DCode', 'RotatedSweepMatchDecoder', ['XZZX']),
+              # a deformation name with lower-case letters and a blank
+              ('RhombicPlanarCode', 'BeliefPropagationOSDDecoder', ['Checkerboard XZZX'])]
     prev = None
+    # every (code class, deformation name) pair once, before the random sequences
+    forced = [(c_, d_, defs_, nm_, three_) for grp, three_ in ((codes2, False), (codes3, True)) for (c_, d_, defs_) in grp for nm_ in defs_]
+    ninv += len(forced)
     with tempfile.TemporaryDirectory() as tmp:
         for i in range(ninv):
-            if prev is not None and rng.random() < 0.45:
+            if i < len(forced):
+                code, dec, defs, nm, three = forced[i]
+                a = {'code': code, 'decoder': dec, '_defs': defs, 'sizes': '2x2x2' if three else '2x2,3x3', 'bias': rng.choice('XYZ'),
+                     'eta': rng.choice(['0.5', '3,inf', '10']), 'prob': rng.choice(['0.1', '0.05,0.15']), 'deformation': nm,
+                     'method': 'direct', 'label': None}
+            elif prev is not None and rng.random() < 0.45:
                 a = dict(prev)
                 a['deformation'] = None if prev['deformation'] else (rng.choice(prev['_defs']) if prev['_defs'] else None)
                 if rng.random() < 0.3:
